@@ -117,6 +117,7 @@ pub enum Op {
     ClientEpipe,
     ClientStall,
     TimerSet,
+    Abort,
     Exit,
     MainDone,
 }
@@ -200,6 +201,10 @@ struct TaskSlot {
     fut: Option<Pin<Box<dyn Future<Output = ()>>>>,
     flag: Arc<WakeFlag>,
     on_panic: Option<Box<dyn FnOnce()>>,
+    /// tokio's `JoinHandle::abort`: the task is dropped at its next scheduling point and its
+    /// handle resolves to a cancelled `JoinError`
+    abort: bool,
+    on_abort: Option<Box<dyn FnOnce()>>,
     done: bool,
 }
 
@@ -415,7 +420,7 @@ pub mod rt {
 
     #[derive(Debug)]
     pub struct JoinError {
-        panicked: bool,
+        pub(crate) panicked: bool,
     }
 
     impl JoinError {
@@ -429,7 +434,35 @@ pub mod rt {
 
     impl std::fmt::Display for JoinError {
         fn fmt(&self, f: &mut std::fmt::Formatter<'_>) -> std::fmt::Result {
-            write!(f, "task panicked")
+            write!(f, "{}", if self.panicked { "task panicked" } else { "task was cancelled" })
+        }
+    }
+
+    /// Handle that can cancel a task without owning its result.
+    #[derive(Clone, Debug)]
+    pub struct AbortHandle {
+        task: u32,
+    }
+
+    fn request_abort(task: u32) {
+        with_world(|w| {
+            if let Some(t) = w.tasks.get_mut(task as usize) {
+                if !t.done {
+                    t.abort = true;
+                    // make it runnable so that the scheduler gets to drop it
+                    t.flag.woken.store(true, Ordering::SeqCst);
+                }
+            }
+            w.log(Op::Abort, task, 0);
+        });
+    }
+
+    impl AbortHandle {
+        pub fn abort(&self) {
+            request_abort(self.task)
+        }
+        pub fn is_finished(&self) -> bool {
+            with_world(|w| w.tasks.get(self.task as usize).map_or(true, |t| t.done)).unwrap_or(true)
         }
     }
 
@@ -439,6 +472,7 @@ pub mod rt {
         result: RefCell<Option<Result<T, JoinError>>>,
         waker: RefCell<Option<Waker>>,
         finished: std::cell::Cell<bool>,
+        task: std::cell::Cell<u32>,
     }
 
     pub struct JoinHandle<T> {
@@ -454,6 +488,14 @@ pub mod rt {
     impl<T> JoinHandle<T> {
         pub fn is_finished(&self) -> bool {
             self.state.finished.get()
+        }
+        pub fn abort(&self) {
+            request_abort(self.state.task.get())
+        }
+        pub fn abort_handle(&self) -> AbortHandle {
+            AbortHandle {
+                task: self.state.task.get(),
+            }
         }
     }
 
@@ -481,9 +523,12 @@ pub mod rt {
             result: RefCell::new(None),
             waker: RefCell::new(None),
             finished: std::cell::Cell::new(false),
+            task: std::cell::Cell::new(u32::MAX),
         });
         let s1 = state.clone();
         let s2 = state.clone();
+        let s3 = state.clone();
+        let s4 = state.clone();
         let wrapped = async move {
             let out = future.await;
             *s1.result.borrow_mut() = Some(Ok(out));
@@ -499,14 +544,26 @@ pub mod rt {
                 w.wake();
             }
         };
+        let on_abort = move || {
+            if s3.result.borrow().is_none() {
+                *s3.result.borrow_mut() = Some(Err(JoinError { panicked: false }));
+            }
+            s3.finished.set(true);
+            if let Some(w) = s3.waker.borrow_mut().take() {
+                w.wake();
+            }
+        };
         let registered = with_world(|w| {
             let id = w.tasks.len() as u32;
+            s4.task.set(id);
             w.tasks.push(TaskSlot {
                 fut: Some(Box::pin(wrapped)),
                 flag: Arc::new(WakeFlag {
                     woken: AtomicBool::new(true),
                 }),
                 on_panic: Some(Box::new(on_panic)),
+                abort: false,
+                on_abort: Some(Box::new(on_abort)),
                 done: false,
             });
             w.log(Op::Spawn, id, 0);
@@ -1082,6 +1139,8 @@ impl Sim {
                     woken: AtomicBool::new(true),
                 }),
                 on_panic: None,
+                abort: false,
+                on_abort: None,
                 done: false,
             });
         });
@@ -1165,6 +1224,25 @@ impl Sim {
             (Some(f), flag) => (f, flag),
             (None, _) => return PollOutcome::Done,
         };
+        // an aborted task is dropped at this scheduling point instead of being polled
+        let aborted = with_world(|w| w.tasks[id as usize].abort && id != 0).unwrap_or(false);
+        if aborted {
+            let on_abort = with_world(|w| {
+                let t = &mut w.tasks[id as usize];
+                t.done = true;
+                t.on_panic = None;
+                w.log(Op::TaskDone, id as u32, 1);
+                w.tasks[id as usize].on_abort.take()
+            })
+            .flatten();
+            IN_SIM.with(|c| c.set(true));
+            let _ = std::panic::catch_unwind(std::panic::AssertUnwindSafe(move || drop(fut)));
+            IN_SIM.with(|c| c.set(false));
+            if let Some(f) = on_abort {
+                f();
+            }
+            return PollOutcome::Done;
+        }
         let waker = Waker::from(flag);
         let mut cx = Context::from_waker(&waker);
         IN_SIM.with(|c| c.set(true));
